@@ -36,7 +36,7 @@ PROPS = ["StatementsSeeOwnWrites", "NoDirtyReadsAct", "FailedStatementNoEffect",
 RELEVANT = {
     "C12": {"constraint-breach", "failed-statement-effect", "panic", "stale-catalog", "catalog-mismatch"},
     "C13": {"spurious-failure", "violating-statement-accepted", "outcome", "tx-state", "query-result", "count", "generated-key",
-            "table", "failed-statement-effect", "panic", "serial-order"},
+            "table", "failed-statement-effect", "panic", "serial-order", "stale-catalog", "catalog-mismatch"},
 }
 
 
@@ -485,6 +485,178 @@ def cat_post(chk, d):
     vlib.log("[cat] %d behaviours replayed in %.1fs, %d deviations" % (d["n"], d["secs"], len(devs)))
 
 
+# ------------------------------------------------------------------ transactional DDL isolation (spec/SQLDdl.tla)
+DDL_KINDS = ["begin", "commit", "rollback", "ins", "insx", "ins2", "updw", "sel", "showcat",
+             "dropChk", "crUIdx", "dropUIdx", "crWIdx", "dropWIdx", "addCol", "renCol", "dropCol", "crT2", "dropT2"]
+DDL_INVS = ["UncommittedDdlInvisible", "NewTxFresh", "ConstraintsHold", "QuerySeesCommitted"]
+
+
+def ddl_consts(**kw):
+    c = dict(NS=2, MaxId=2, UVals={"a"}, MaxStmts=3, Kinds=set(DDL_KINDS), DdlQuirks=set(), EmitDepth=0)
+    c.update(kw)
+    return c
+
+
+def ddl_cfg(c, spec="Spec", invs=DDL_INVS, props=("RollbackRestores",), view=True):
+    out = "CONSTANTS\n" + "".join("  %s = %s\n" % (k, tla(v)) for k, v in c.items())
+    out += "SPECIFICATION %s\n" % spec + ("INVARIANTS " + " ".join(invs) + "\n" if invs else "")
+    out += ("PROPERTIES " + " ".join(props) + "\n" if props else "") + ("VIEW View\n" if view else "")
+    return out + "CHECK_DEADLOCK FALSE\n"
+
+
+def ddl_fix(steps):
+    for st in steps:
+        for f in ("res", "seen", "rows", "rows2", "cat"):
+            if isinstance(st.get(f), dict):
+                st[f] = []
+    return steps
+
+
+def ddl_design(name, c, workers):
+    res = vlib.run_tlc("SQLDdl", "ddl.cfg", workers=workers, timeout=2400, files=[("ddl.cfg", ddl_cfg(c))], tag="sqlddl-mc", javaopts=JOPTS)
+    vlib.tlc_must_pass(res, "SQLDdl design [%s]" % name)
+    return res
+
+
+def ddl_broken(c):
+    """The clone shares the catalog with the cache (in the model): TLC must find uncommitted DDL becoming visible."""
+    res = vlib.run_tlc("SQLDdl", "ddl.cfg", workers=1, timeout=900, tag="sqlddl-code", javaopts=JOPTS,
+                       files=[("ddl.cfg", ddl_cfg(dict(c, DdlQuirks={"shared_clone"}), invs=["ConstraintsHold"], props=()))])
+    if res.error or res.violation != "ConstraintsHold":
+        raise MachineryFault("SQLDdl with shared_clone: expected a ConstraintsHold counterexample, got %s %s" % (res.violation, res.error))
+    sts = [s["last"] for s in trace_states(res.out) if "last" in s]
+    return res, [(x["s"], x["k"], x["id"], x["u"], x["w"]) for x in sts if x["k"] not in ("init", "end")]
+
+
+def ddl_simulate(c, num, seed):
+    c = dict(c, EmitDepth=1)
+    res = vlib.run_tlc("SQLDdl", "ddl.cfg", workers=1, timeout=1800, javaopts=JOPTS, tag="sqlddl-sim",
+                       extra=["-simulate", "num=%d" % num, "-depth", str(c["NS"] * c["MaxStmts"] + 3), "-seed", str(seed)],
+                       files=[("ddl.cfg", ddl_cfg(c, spec="RSpec", invs=DDL_INVS + ["Emit"], props=(), view=False))])
+    if res.error or res.violation:
+        raise MachineryFault("SQLDdl simulation: %s %s" % (res.error, res.violation))
+    bs = vlib.printed_json(res.out)
+    if len(bs) < num // 2:
+        raise MachineryFault("SQLDdl simulation printed only %d behaviours" % len(bs))
+    return res, [{"origin": "tlc-simulate", "steps": ddl_fix(b["steps"])} for b in bs]
+
+
+# for every DDL kind: statements that make it applicable, and a statement of ANOTHER session whose outcome depends on it
+DDL_SCEN = {
+    "dropChk": ([], lambda i: [("ins", i, "u%d" % i, -1)]),
+    "crUIdx": ([], lambda i: [("ins", i, "a", 1), ("ins", i + 1, "a", 1)]),
+    "dropUIdx": (["crUIdx"], lambda i: [("ins", i, "a", 1), ("ins", i + 1, "a", 1)]),
+    "crWIdx": ([], lambda i: [("ins", i, "u%d" % i, 1)]),
+    "dropWIdx": (["crWIdx"], lambda i: [("ins", i, "u%d" % i, 1)]),
+    "addCol": ([], lambda i: [("insx", i, "u%d" % i, 1)]),
+    "renCol": (["addCol"], lambda i: [("insx", i, "u%d" % i, 1)]),
+    "dropCol": (["addCol"], lambda i: [("insx", i, "u%d" % i, 1)]),
+    "crT2": ([], lambda i: [("ins2", i, "", 0)]),
+    "dropT2": (["crT2"], lambda i: [("ins2", i, "", 0)]),
+}
+
+
+def ddl_scenarios(kinds):
+    """(warm|cold cache) x (COMMIT|ROLLBACK) per DDL kind: session 1 runs the DDL (and a DML of its own) inside a transaction;
+    session 2 issues the dependent statement while the DDL is uncommitted, looks at the catalog, and again after the end."""
+    out = []
+    for k in kinds:
+        setup, dep = DDL_SCEN[k]
+        for warm in (True, False):
+            for end in ("commit", "rollback"):
+                if k == "crUIdx":
+                    own = []                       # (a transaction that creates the unique index does nothing else on k)
+                else:
+                    own = [(1, "ins", 9, "own", 1)]
+                sc = [(2, x, 0, "", 0) for x in setup]
+                sc += [(2, "showcat", 0, "", 0)] if warm else []
+                sc += [(1, "begin", 0, "", 0), (1, k, 0, "x" if k == "dropCol" else "", 0)] + own
+                sc += [(2,) + d for d in (dep(1) if k not in ("crUIdx",) else [])]     # writes of another session while the DDL is open
+                sc += [(2, "showcat", 0, "", 0), (1, end, 0, "", 0)]
+                sc += [(2,) + d for d in dep(3)] + [(2, "showcat", 0, "", 0)]
+                if k == "dropChk":
+                    sc += [(2, "updw", 3, "", -1), (1, "ins", 5, "u5", -1)]
+                out.append(("%s:%s:%s" % (k, "warm" if warm else "cold", end), sc))
+    return out
+
+
+def ddl_scripts(scripts):
+    """Design observations for statement sequences (s, k, id, u, w): SQLDdl driven by a generated extension module."""
+    def lit(m):
+        return '[s |-> %d, k |-> "%s", id |-> %d, u |-> "%s", w |-> %d]' % m
+    mod = ("---- MODULE SQLDdlScript ----\nEXTENDS SQLDdl\nScripts == {%s}\n"
+           "Done == [i \\in 1..Len(hist) |-> [s |-> hist[i].s, k |-> hist[i].k, id |-> hist[i].id, u |-> hist[i].u, w |-> hist[i].w]]\n"
+           "SNext == \\/ \\E sc \\in Scripts : /\\ Len(hist) < Len(sc) /\\ SubSeq(sc, 1, Len(hist)) = Done\n"
+           "                                 /\\ LET m == sc[Len(hist) + 1] IN Step(m.s, St(m.k, m.id, m.u, m.w))\n"
+           "         \\/ (Done \\in Scripts /\\ last.k # \"end\" /\\ last' = [last EXCEPT !.k = \"end\"] /\\ UNCHANGED <<cat, rows, rows2, cache, ever, sess, hist>>)\n"
+           "SSpec == Init /\\ [][SNext]_vars\n====\n") % ", ".join("<<" + ", ".join(lit(m) for m in sc) + ">>" for _, sc in scripts)
+    us = {m[3] for _, sc in scripts for m in sc if m[1] in ("ins", "insx")}
+    c = ddl_consts(NS=2, MaxId=9, UVals=us or {"a"}, MaxStmts=1000, EmitDepth=1)
+    res = vlib.run_tlc("SQLDdlScript", "ddl.cfg", workers=1, timeout=900, javaopts=JOPTS, tag="sqlddl-script",
+                       files=[("SQLDdlScript.tla", mod), ("ddl.cfg", ddl_cfg(c, spec="SSpec", invs=DDL_INVS + ["Emit"], props=(), view=False))])
+    vlib.tlc_must_pass(res, "SQLDdl scripted (design observations of the DDL-in-transaction scenarios)")
+    got = {}
+    for b in vlib.printed_json(res.out):
+        steps = ddl_fix(b["steps"])
+        got[tuple((m["s"], m["k"], m["id"], m["u"], m["w"]) for m in steps)] = steps
+    out = []
+    for name, sc in scripts:
+        steps = got.get(tuple(sc))
+        if steps is None:
+            raise MachineryFault("SQLDdl scripted: scenario %s did not complete in the design" % name)
+        out.append({"origin": "scenario:" + name, "steps": steps})
+    return res, out
+
+
+def ddl_exec(binp, wd, pd, seed, ex):
+    """(runs in a worker thread) pd: profile {design, sim, kinds, broken}"""
+    fd = [(name, ex.submit(ddl_design, name, c, w)) for name, c, w in pd["design"]]
+    fs = [ex.submit(ddl_simulate, c, num, seed * 1000 + 70 + i) for i, (c, num) in enumerate(pd["sim"])]
+    fb = ex.submit(ddl_broken, pd["broken"]) if pd.get("broken") else None
+    tl = []
+    scen = ddl_scenarios(pd["kinds"])
+    if fb:
+        res, stmts = fb.result()
+        tl.append((res, "SQLDdl with a shared clone (broken in the model) -> ConstraintsHold violated after %d steps" % len(stmts)))
+        scen.append(("tlc-counterexample-of-shared-clone", stmts))
+    res, behaviours = ddl_scripts(scen)
+    tl.append((res, "SQLDdl driven by %d DDL-in-transaction scenarios (design observations)" % len(scen)))
+    for fut in fs:
+        res, b = fut.result()
+        tl.append((res, "SQLDdl -simulate (%d behaviours)" % len(b)))
+        behaviours += b
+    for name, fut in fd:
+        tl.append((fut.result(), "SQLDdl design [%s]" % name))
+    t0 = time.time()
+    p = os.path.join(wd, "ddl.json")
+    json.dump({"behaviours": behaviours}, open(p, "w"))
+    out, _ = vlib.run_harness(binp, ["-ddl", p, "-dir", os.path.join(wd, "ddld")], timeout=1500)
+    return {"tlc": tl, "r": json.loads(out), "n": len(behaviours), "secs": time.time() - t0, "kinds": pd["kinds"]}
+
+
+def ddl_post(chk, d):
+    for res, name in d["tlc"]:
+        chk.add_tlc(res, name)
+    r = d["r"]
+    devs = (r.get("extra") or {}).pop("deviations", None) or []
+    vlib.absorb(chk, r)
+    ctr = r.get("counters") or {}
+    need = ["ddl:pattern:write-while-other-session-has-uncommitted-ddl", "ddl:pattern:write-after-rolled-back-ddl",
+            "ddl:pattern:drop-constraint-rolled-back-then-violating-write-refused", "ddl:rollback:ok", "ddl:commit:ok", "ddl:showcat:ok"]
+    need += ["ddl:%s:ok" % k for k in d["kinds"]]
+    for k in need:
+        if not ctr.get(k):
+            raise MachineryFault("vacuous: DDL-in-transaction behaviours never reached %s on the real engine" % k)
+    plain_report(chk, devs, "sqlddl", "DDL-in-transaction behaviours of SQLDdl.tla on one sql.Engine")
+    chk.cov["transactional_ddl"] = {"behaviours": d["n"], "steps": r.get("evaluations", 0),
+                                    "writes_while_other_session_has_uncommitted_ddl": ctr.get("ddl:pattern:write-while-other-session-has-uncommitted-ddl", 0),
+                                    "writes_after_rolled_back_ddl": ctr.get("ddl:pattern:write-after-rolled-back-ddl", 0),
+                                    "drop_constraint_rolled_back_then_violating_write_refused": ctr.get("ddl:pattern:drop-constraint-rolled-back-then-violating-write-refused", 0)}
+    vlib.log("[ddl] %d behaviours replayed in %.1fs, %d deviations" % (d["n"], d["secs"], len(devs)))
+
+
+
+
 # ------------------------------------------------------------------ the two profiles
 def profile(pid, tier):
     """Bounds per property and tier, fitted to measured state counts (quick: each exhaustive run < 10^5 generated states)."""
@@ -555,6 +727,21 @@ def profile(pid, tier):
     return {"design": design, "code": [x for x in code if x[0] not in FIXEDQ], "sim": sim}
 
 
+def ddl_profile(pid, tier):
+    thorough = tier == "thorough"
+    allk = [k for k in DDL_SCEN]
+    small = {"begin", "commit", "rollback", "ins", "updw", "dropChk", "showcat"}
+    if pid == "C12":      # C12 shares the scenario run (constraints created / dropped by DDL are enforced exactly from / until its commit)
+        return {"design": [("2 sessions x 3: DROP CONSTRAINT / insert / update / catalog query", ddl_consts(Kinds=small), 3)] if thorough else [],
+                "sim": [(ddl_consts(NS=3, MaxId=3, UVals={"a", "b"}, MaxStmts=5), 300)] if thorough else [], "kinds": allk, "broken": None}
+    return {"design": [("2 sessions x 3: DROP CONSTRAINT / insert / update / catalog query", ddl_consts(Kinds=small), 3)] +
+                      ([("2 sessions x 3: constraint, unique index, column", ddl_consts(Kinds=small | {"crUIdx", "dropUIdx", "addCol", "insx"}), 8),
+                        ("2 sessions x 4: DROP CONSTRAINT", ddl_consts(MaxStmts=4, Kinds=small), 8),
+                        ("3 sessions x 3: DROP CONSTRAINT, table k2", ddl_consts(NS=3, Kinds=small | {"crT2", "dropT2", "ins2"}), 8)] if thorough else []),
+            "sim": [(ddl_consts(NS=3, MaxId=3, UVals={"a", "b"}, MaxStmts=5), 800 if thorough else 80)],
+            "kinds": allk, "broken": ddl_consts(NS=2, MaxStmts=4, Kinds={"begin", "rollback", "ins", "dropChk", "sel"}) if thorough else None}
+
+
 def run_sqltx(chk, args):
     prof = profile(chk.pid, chk.tier)
     binp = vlib.go_build("c12")
@@ -621,6 +808,7 @@ def run_sqltx(chk, args):
     jr = [hx.submit(h_replay, uidx, bs) for uidx, bs in behaviours.items()]
     ju = hx.submit(uniq_exec, binp, wd, fu) if fu else None
     jc = hx.submit(cat_exec, binp, wd, fcd, fcb, fcs) if pc else None
+    jd = hx.submit(ddl_exec, binp, wd, ddl_profile(chk.pid, chk.tier), chk.seed, ex)
     # 6. trace validation (meanwhile, in this thread)
     t0 = time.time()
     thorough = chk.tier == "thorough"
@@ -653,6 +841,7 @@ def run_sqltx(chk, args):
         chk.cov["pgwire"] = {"behaviours": nb, "steps": r.get("evaluations", 0), "deviations": len(devs)}
         vlib.log("[pgwire] %d behaviours %.1fs, %d deviations" % (nb, time.time() - t0, len(devs)))
     # 5b. C12: composite unique indexes (directed enumeration) and catalog visibility across the sessions of one engine
+    ddl_post(chk, jd.result())
     if jc:
         cat_post(chk, jc.result())
     if ju:
